@@ -175,6 +175,9 @@ impl Table for Madt {
     fn name(&self) -> &'static str {
         "madt"
     }
+    fn unjudged(&self, _ops: &[Op]) -> Vec<usize> {
+        vec![8] // table Revision: pinned to the baseline, not judged
+    }
     fn kinds(&self) -> &'static [&'static str] {
         &["lapic", "ioapic", "gicc", "gicd", "gicmsi", "gicr", "gicits", "rintc", "add_imsic", "aplic", "plic", "imsic"]
     }
